@@ -86,6 +86,14 @@ struct RNode
     void push_back(const RNode& e) { items.push_back(e.id); }
     void push_back(RNode&& e) { items.push_back(e.id); }
 };
+// an element type of a DSL that builds lists with commas: it declares a comma operator of its own (never to be picked up
+// by the helpers' internals - the helper returns the container it was given)
+struct CommaE
+{
+    int id = 0;
+    explicit CommaE(int i) : id(i) {}
+    template<typename C> friend int operator,(CommaE& e, C&&) { return -e.id; }
+};
 inline void check(bool ok, const char* cid, const char* what)
 {
     ++checks;
